@@ -13,6 +13,37 @@ A = real.A
 from asynq.tools import deduplicate  # noqa: E402
 
 
+class ProbeCtx(A.AsyncContext):
+    """A context held by a deduplicated body; each time its suspended task is resumed it asks for
+    the same key again - from outside the running body, so it must get the in-flight task."""
+
+    def __init__(self, W, cs, key):
+        self.W = W
+        self.cs = cs
+        self.key = key
+        self.n = 0
+
+    def resume(self):
+        self.n += 1
+        if self.n == 1:
+            return  # entry: the body is running
+        W = self.W
+        m = W.inflight.get(self.key)
+        if m is None or m.is_computed():
+            return
+        fn, _ = W._callable(self.cs[0] % 6, self.cs[1])
+        args, kwargs = W._args(self.cs[2], self.cs[3], "pos")
+        t = fn.asynq(*args, **kwargs)
+        W.probe("call_from_context_resume")
+        if t is not m:
+            W.out.append(("share-inflight", "a call for key %r made from a context's resume() while the body is suspended did not return the in-flight task" % (self.key,)))
+            if isinstance(t, A.AsyncTask) and not any(t is x for x in W.tasks):
+                W.tasks.append(t)
+
+    def pause(self):
+        pass
+
+
 class _World(object):
     def __init__(self, case):
         self.case = case
@@ -61,6 +92,9 @@ class _World(object):
                 sub = W.call("body", [fnid, inst, a, b, "pos"])
                 W.probe("reentrant_same_key_call")
             nblocks = (a + b) % 3
+            probe_ctx = ProbeCtx(W, [fnid, inst if inst is not None else 0, a, b], key) if (W.case.get("probe_ctx") and a == 2) else None
+            if probe_ctx is not None:
+                probe_ctx.__enter__()
             for i in range(nblocks):
                 W.running.pop()
                 W.running_tasks.pop()
@@ -82,6 +116,9 @@ class _World(object):
                 finally:
                     W.running.append(key)
                     W.running_tasks.append(t)
+            if probe_ctx is not None:
+                probe_ctx.__exit__(None, None, None)
+                probe_ctx = None
             if a == 3:
                 raise SimError("body-fails:%r#%d" % (key, serial))
             return "v:%r#%d" % (key, serial)
@@ -119,7 +156,10 @@ class _World(object):
         self.f = [make_function(0), make_function(1)]
         K1 = make_class(2, 3)
         K2 = make_class(4, 5)
-        self.objs = {2: [K1(0), K1(1), K1(2)], 4: [K2(0), K2(1)]}
+        # the second instance of each class is falsy (an empty container): still a distinct key
+        F1 = type("F1", (K1,), {"__len__": lambda self: 0})
+        F2 = type("F2", (K2,), {"__len__": lambda self: 0})
+        self.objs = {2: [K1(0), F1(1), K1(2)], 4: [K2(0), F2(1)]}
         self.statics = {3: K1, 5: K2}
         self.reenter_budget = {}
 
@@ -250,7 +290,8 @@ class C12(object):
                 else:
                     script.append(["b", rng.randint(0, 2)])
             clients.append(script)
-        return {"clients": clients, "prio": gen.gen_prio(rng, 3), "await_reentrant": rng.random() < 0.7}
+        return {"clients": clients, "prio": gen.gen_prio(rng, 3), "await_reentrant": rng.random() < 0.7,
+                "probe_ctx": rng.random() < 0.4}
 
     def sample(self, case, r):
         return case
